@@ -290,9 +290,13 @@ impl ArrayImpl {
                 sqlparser::ast::DateTimeField::Day => {
                     A::new_int32(unary_op(a.as_ref(), |d| d.day()))
                 }
-                f => todo!("extract {f} from date"),
+                f => {
+                    return Err(ConvertError::NoUnaryOp(
+                        format!("extract {f} from"),
+                        self.type_string(),
+                    ));
+                }
             },
-            A::Interval(_) => todo!("extract {field} from interval"),
             _ => {
                 return Err(ConvertError::NoUnaryOp(
                     "extract".into(),
